@@ -35,5 +35,9 @@ Next == /\ c.kind = "none"
                 /\ s * b <= 24 /\ (l # "glwe_c" => (s > ds /\ dn * ds <= s /\ ko = 0)) /\ (l = "glwe_c" => (dn = 1 /\ ds = 1))
                 /\ (l # "gglwe_c" => ri = 1)
                 /\ c' = With(Base("c19", l, b, s, r), [dnum |-> dn, dsize |-> ds, rin |-> ri, xa |-> xa, xe |-> xe, koff |-> ko])
+           \* compressed key wrappers (switching, automorphism, tensor, GGLWE-to-GGSW): ranks up to 3 (the packed triangle of s_i s_j)
+           \/ \E l \in {"ksk_c", "atk_c", "tsk_c", "tgk_c"}, b \in Bs, s \in Sizes, r \in 1..3, dn \in 1..3, ds \in 1..2, xa \in Seeds, xe \in Seeds, pid \in 0..3 :
+                /\ s * b <= 24 /\ s > ds /\ dn * ds <= s /\ (l # "atk_c" => pid = 0)
+                /\ c' = With(Base("c19", l, b, s, r), [dnum |-> dn, dsize |-> ds, rin |-> 1, xa |-> xa, xe |-> xe, koff |-> 0, pid |-> pid])
 Emit == c.kind # "none" => PrintT(<<"DESC", ToJson(c)>>)
 =============================================================================
